@@ -27,13 +27,20 @@ def isSpace (c : Nat) : Bool :=
 
 def isDigit (c : Nat) : Bool := 48 ≤ c && c ≤ 57
 
-def lstrip : Text → Text
+/-- what `int()` skips around the digits: C `isspace` for ASCII (the separators 0x1c-0x1f are *not*
+skipped, unlike `str.strip()`), plus the non-ASCII spaces, which are first mapped to ' ' -/
+def isIntSpace (c : Nat) : Bool :=
+  c == 32 || (9 ≤ c && c ≤ 13) || c == 0x85 || c == 0xA0
+
+def lstripBy (p : Nat → Bool) : Text → Text
   | [] => []
-  | c :: cs => if isSpace c then lstrip cs else c :: cs
+  | c :: cs => if p c then lstripBy p cs else c :: cs
 
-def rstrip (t : Text) : Text := (lstrip t.reverse).reverse
+def stripBy (p : Nat → Bool) (t : Text) : Text :=
+  (lstripBy p (lstripBy p t).reverse).reverse
 
-def strip (t : Text) : Text := rstrip (lstrip t)
+/-- `str.strip()` -/
+def strip (t : Text) : Text := stripBy isSpace t
 
 /-- `str.split(sep)`: always at least one part -/
 def splitOn (sep : Nat) : Text → List Text
@@ -74,7 +81,7 @@ def digitsVal : Text → Nat → DS → Option Nat
 /-- Python `int(s)` for a `str` (base 10): surrounding whitespace, one sign, digits with single
 interior underscores -/
 def pyInt (t : Text) : Option Int :=
-  match strip t with
+  match stripBy isIntSpace t with
   | 43 :: r => (digitsVal r 0 .start).map Int.ofNat
   | 45 :: r => (digitsVal r 0 .start).map fun n => - Int.ofNat n
   | r => (digitsVal r 0 .start).map Int.ofNat
@@ -542,7 +549,7 @@ def sessionWith {σ ρ π : Type} (exec : σ → ρ → Option (σ × π)) (cfg 
 abbrev Tags := List (List Nat)
 
 inductive Op where
-  | read (t i n : Nat)
+  | read (t i n : Nat) (frag : Bool := false)
   | write (t i : Nat) (vs : List Nat)
   | gas (attr : Nat)                      -- Get Attribute Single @2/1/attr
   | sas (attr : Nat) (vs : List Nat)      -- Set Attribute Single @2/1/attr (whole attribute)
@@ -577,7 +584,7 @@ structure Dev where
 deriving DecidableEq, Repr
 
 def execOp (d : Dev) : Op → Option (Dev × OpResult)
-  | .read t i n =>
+  | .read t i n _ =>
     match d.tags[t]? with
     | none => none
     | some l =>
@@ -622,7 +629,17 @@ def execReq (d : Dev) : Req → Option (Dev × List OpResult)
   | .single op => execOps d [op]
   | .multiple ops => execOps d ops
 
-def serve := serveWith execReq
-def session := sessionWith execReq
+/-- A request as the server's parser sees it: `bare` = no Unconnected Send wrapper.  A bare Read Tag
+Fragmented starts with service code 0x52, which the parser takes for an Unconnected Send: the garbled
+request raises in the addressed object (no tag access) whatever the personality. -/
+def execFrame (d : Dev) : Bool × Req → Option (Dev × List OpResult)
+  | (true, .single (.read _ _ _ true)) => none
+  | (_, req) => execReq d req
+
+def serve (cfg : Config) (d : Dev) (rp : Option RoutePath) (req : Req) :=
+  serveWith execFrame cfg d rp (rp.isNone, req)
+
+def session (cfg : Config) (d : Dev) (frames : List (Option RoutePath × Req)) :=
+  sessionWith execFrame cfg d (frames.map fun (rp, req) => (rp, (rp.isNone, req)))
 
 end Cpppo.Route
